@@ -506,7 +506,35 @@ func (g *gen) genGF() {
 			g.emit("poly %d %d %d div %s %s", f[0], f[1], f[2], p, q)
 			g.emit("poly %d %d %d mul %s %s", f[0], f[1], f[2], p, q)
 			g.emit("poly %d %d %d add %s %s", f[0], f[1], f[2], p, q)
+			g.emit("poly %d %d %d mulmono %s %d,%d", f[0], f[1], f[2], p, g.intn(6), g.intn(f[1]))
 		}
+		// the zero polynomial (in all its spellings) and constants as operands; equal degrees; monomials
+		zeros := []string{"0", "0,0", "0,0,0,0"}
+		for _, z := range zeros {
+			for _, o := range []string{"0", "1", "5", "0,3", "2,0,1", g.ilist(4, f[1])} {
+				g.emit("poly %d %d %d add %s %s", f[0], f[1], f[2], z, o)
+				g.emit("poly %d %d %d add %s %s", f[0], f[1], f[2], o, z)
+				g.emit("poly %d %d %d mul %s %s", f[0], f[1], f[2], z, o)
+				g.emit("poly %d %d %d mul %s %s", f[0], f[1], f[2], o, z)
+				if o != "0" {
+					g.emit("poly %d %d %d div %s %s", f[0], f[1], f[2], z, o)
+				}
+			}
+			g.emit("poly %d %d %d mulmono %s 3,2", f[0], f[1], f[2], z)
+		}
+		for i := 0; i < g.n(20, 200); i++ {
+			n := 1 + g.intn(6)
+			p := fmt.Sprint(1+g.intn(f[1]-1)) + "," + g.ilist(n, f[1])
+			q := fmt.Sprint(1+g.intn(f[1]-1)) + "," + g.ilist(n, f[1])
+			g.emit("poly %d %d %d div %s %s", f[0], f[1], f[2], p, q) // equal degrees: exactly one division step
+			g.emit("poly %d %d %d div %s %s", f[0], f[1], f[2], q, "1")
+			g.emit("poly %d %d %d add %s %s", f[0], f[1], f[2], p, p) // cancels to zero
+			g.emit("poly %d %d %d mulmono %s %d,0", f[0], f[1], f[2], p, g.intn(4))
+			g.emit("poly %d %d %d mono %d %d", f[0], f[1], f[2], g.intn(12), g.intn(f[1]))
+		}
+		g.emit("poly %d %d %d mono 0 0", f[0], f[1], f[2])
+		g.emit("poly %d %d %d mono 5 0", f[0], f[1], f[2])
+		g.emit("poly %d %d %d mono 0 1", f[0], f[1], f[2])
 		// Reed-Solomon: sequences of Encode calls on one shared encoder, in random request orders
 		maxK := f[1] - 1
 		if maxK > 600 {
